@@ -44,7 +44,10 @@ type RuleResult struct {
 	Floor int    // minimum number of instances (discharged+finding+undecided) confirmed by hand
 	Note  string // what the rule decides, one line
 	Err   error  // anchor lost / analysis failure => the rule fails closed
-	keys  map[string]int
+	// SelfTest marks results of the checker's own self-tests (seeded mutants): a failure is a
+	// checker defect, reported as SELFTEST-FAIL with exit status 2, never as a VIOLATION.
+	SelfTest bool
+	keys     map[string]int
 }
 
 // Add records an obligation. Keys are made unique per rule: a repeated key gets "#2", "#3", ...
@@ -160,9 +163,30 @@ func (p *PropRun) Finish(verifDir string, known []Known) int {
 	var samples []interface{}
 	totalOb, totalDis, totalKnown, totalUnd, totalND := 0, 0, 0, 0, 0
 	seenKey := map[string]bool{}
+	var selfFails []Ob
 	for _, rr := range p.Rules {
 		s := &ruleSummary{Floor: rr.Floor, Note: rr.Note}
 		sum[rr.Rule] = s
+		if rr.SelfTest {
+			for _, ob := range rr.Obs {
+				switch ob.Status {
+				case NotDecided:
+					s.NotDecided++
+				case Discharged:
+					s.Instances++
+					s.Discharged++
+				default:
+					s.Instances++
+					s.Violations++
+					selfFails = append(selfFails, ob)
+				}
+			}
+			if rr.Err != nil {
+				s.Error = rr.Err.Error()
+				selfFails = append(selfFails, Ob{Rule: rr.Rule, Key: rr.Rule + "|error", Msg: rr.Err.Error()})
+			}
+			continue
+		}
 		if rr.Err != nil {
 			s.Error = rr.Err.Error()
 			violations = append(violations, Ob{Rule: rr.Rule, Key: rr.Rule + "|anchor", Status: Undecided, St: "undecided",
@@ -246,6 +270,14 @@ func (p *PropRun) Finish(verifDir string, known []Known) int {
 	for _, l := range lines {
 		fmt.Println(l)
 	}
+	for _, sf := range selfFails {
+		fmt.Printf("SELFTEST-FAIL property=%s %s: %s\n", p.Property, sf.Key, sf.Msg)
+	}
+	if len(selfFails) > 0 && exit == 0 {
+		exit = 2
+	}
+	cov0 := map[string]interface{}{"selftest_failures": len(selfFails)}
+	_ = cov0
 	// evidence
 	var vs []interface{}
 	for i, v := range violations {
